@@ -484,6 +484,8 @@ def _dot(us, vs):
 @reg(aten.mv.default)
 def _mv(m, v):
     M, V = to_arr(m), to_arr(v)
+    if M.ndim != 2 or V.ndim != 1 or M.shape[1] != V.shape[0]:
+        raise RuntimeError(f"size mismatch, got input ({M.shape}), vec ({V.shape})")
     out = np.empty(M.shape[0], dtype=object)
     for i in range(M.shape[0]):
         out[i] = _dot(M[i], V)
@@ -500,6 +502,8 @@ def _dotp(a, b):
 @reg(aten.mm.default)
 def _mm(a, b):
     A, B = to_arr(a), to_arr(b)
+    if A.ndim != 2 or B.ndim != 2 or A.shape[1] != B.shape[0]:
+        raise RuntimeError(f"mat1 and mat2 shapes cannot be multiplied ({A.shape[0]}x{A.shape[1] if A.ndim > 1 else ''} and {B.shape[0]}x{B.shape[1] if B.ndim > 1 else ''})")
     out = np.empty((A.shape[0], B.shape[1]), dtype=object)
     for i in range(A.shape[0]):
         for k in range(B.shape[1]):
